@@ -17,6 +17,11 @@ KINDS = ["res", "prio", "preempt"]
 MAX_STEPS = 4000
 
 
+def canon_exc(e):
+    import re
+    return [type(e).__name__, re.sub(r" object at 0x[0-9a-f]+", "", str(e))[:160]]
+
+
 class Stop(Exception):
     pass
 
@@ -47,6 +52,8 @@ class Driver:
         self.exit_releases = []      # number of Release events created by each with-exit
         self.with_intr_exits = []    # indices of the Ex actions made by a real `with` statement that was left by an Interrupt
         self.raised = None
+        self.done = False
+        self.after_raise = None
         self.pid_of = {}
         self.procs = []
         self.pstate = []
@@ -82,6 +89,8 @@ class Driver:
         return [env.now if now is None else now, users, queue, res.count, pend, trig, len(self.intrs)]
 
     def act(self, *a):
+        if self.done:            # (generators destroyed after the run execute their with-exits: not part of the history)
+            return
         self.acts.append(list(a))
         self.snaps.append(self.snapshot())
 
@@ -129,6 +138,8 @@ class Driver:
         judges what it did to the resource."""
         new = [e[3] for e in sorted(self.env._queue, key=lambda e: e[2])
                if isinstance(e[3], self.R.Release) and id(e[3]) not in self.evid and e[3].resource is self.res]
+        if self.done:
+            return
         for rel in new:
             self.register(rel)
             self.watch(rel)
@@ -248,23 +259,28 @@ class Driver:
                             self.op_release(other["cur"])
                 except Interrupt as it:
                     got(it)
-            # never end while holding or queueing; then stay alive long enough to receive a pending interrupt
-            if st["cur"] is not None and st["active"]:
-                if st["cur"].triggered:
-                    self.op_release(st["cur"])
-                elif not st["cancelled"]:
-                    self.op_cancel(pid, st["cur"])
-                st["active"] = False
-            for _ in range(2):
-                try:
-                    yield env.timeout(1)
-                except Interrupt as it:
-                    got(it)
+            if not self.case["procs"][pid].get("leave"):
+                # release / cancel what is left, then stay alive long enough to receive a pending interrupt
+                if st["cur"] is not None and st["active"]:
+                    if st["cur"].triggered:
+                        self.op_release(st["cur"])
+                    elif not st["cancelled"]:
+                        self.op_cancel(pid, st["cur"])
+                    st["active"] = False
+                for _ in range(2):
+                    try:
+                        yield env.timeout(1)
+                    except Interrupt as it:
+                        got(it)
+            # (with "leave" the generator ends here, possibly holding a slot or still queued)
+            self.act("En", pid)
         except Stop:
             return
         except Exception as e:          # an operation of the resource raised: the property says it must not
             if self.raised is None:
-                self.raised = [type(e).__name__, str(e)[:160]]
+                self.raised = canon_exc(e)
+                rel_pending = sum(1 for x in self.env._queue if isinstance(x[3], self.R.Release) and x[3].resource is self.res)
+                self.after_raise = [len(self.res.users), len(self.res.queue), rel_pending, pid, env.now]
 
     # ---- main loop -----------------------------------------------------------------------------------
     def run(self):
@@ -297,14 +313,18 @@ class Driver:
                     if slot is not None and self.snaps[slot] is None:
                         # the event had lost its callback list entry (cannot happen with the code as is)
                         self.snaps[slot] = self.snapshot()
-        except Exception as e:
+        except Exception as e:          # escaped from env.step(): raised inside a callback of the kernel
             if self.raised is None:
-                self.raised = [type(e).__name__, str(e)[:160]]
+                self.raised = canon_exc(e)
+                rel_pending = sum(1 for x in env._queue if isinstance(x[3], self.R.Release) and x[3].resource is self.res)
+                self.after_raise = [len(self.res.users), len(self.res.queue), rel_pending, -1, env.now]
         for i, s in enumerate(self.snaps):
             if s is None:
                 self.snaps[i] = self.snapshot()
-        return {"acts": self.acts, "snaps": self.snaps, "intrs": self.intrs, "recv": self.recv,
-                "reqs": {str(k): v for k, v in self.reqs.items()}, "raised": self.raised, "steps": steps,
+        self.done = True
+        return {"acts": list(self.acts), "snaps": list(self.snaps), "intrs": list(self.intrs), "recv": list(self.recv),
+                "reqs": {str(k): v for k, v in self.reqs.items()}, "raised": self.raised, "after_raise": self.after_raise,
+                "steps": steps,
                 "pokes": self.pokes, "exit_releases": self.exit_releases, "with_intr_exits": self.with_intr_exits,
                 "left": len(env._queue)}
 
@@ -327,8 +347,8 @@ class C06(Prop):
                     "the state after a micro-step by a callback appended behind the resource's own callback",
                     "CPython list.sort/sorted are stable (the model's ssort is a stable insertion sort)"]
     assumptions = ["each process holds or awaits at most one request of the resource (adm, checked on every observed history)",
-                   "cancel()/__exit__ is not called again on a request that was cancelled before being granted (list.remove raises ValueError)",
-                   "a process does not terminate while it holds a slot of a PreemptiveResource (Process.interrupt would raise inside request())",
+                   "cancel()/__exit__ is called by the process that made the request, and not again on a request that was cancelled "
+                   "before being granted (list.remove raises ValueError)",
                    "capacity >= 1 (the constructor rejects anything else)"]
     partial = []
 
@@ -376,7 +396,14 @@ class C06(Prop):
                     script += [["intr", rng.randint(0, nproc - 1)]]      # Process.interrupt() of some other driver process
                 elif noise < 0.78:
                     script += [["intr_g", rng.randint(0, 3)]]            # ... of one whose grant is triggered but unprocessed
-            procs.append({"start": rng.choice([0, 0, 0, 1, 1, 2, 3]), "script": script})
+            leave = rng.random() < 0.12
+            if leave:
+                # the process ends right after having got (or merely asked for) a slot
+                cut = [j for j, ins in enumerate(script) if ins[0] in ("y", "req")]
+                if cut:
+                    j = rng.choice(cut)
+                    script = script[:j + 1] + ([["w", rng.choice([0, 1])]] if rng.random() < 0.5 else [])
+            procs.append({"start": rng.choice([0, 0, 0, 1, 1, 2, 3]), "script": script, "leave": leave})
         return {"kind": "hist", "res": kind, "cap": cap, "procs": procs}
 
     # ---- implementation ----------------------------------------------------------------------------
@@ -421,7 +448,13 @@ class C06(Prop):
         msgs = []
         kind, cap = case["res"], case["cap"]
         if obs["raised"]:
-            msgs.append(f"op-raises: an operation of the resource raised {obs['raised']}")
+            ar = obs.get("after_raise")
+            if ar and ar[1] > 0 and ar[0] < cap and ar[2] == 0:
+                msgs.append(f"op-raises-and-strands: an operation of process {ar[3]} on the resource raised {obs['raised']} at t={ar[4]}; it leaves "
+                            f"{ar[1]} request(s) queued with {cap - ar[0]} of {cap} slot(s) free and no Release pending (nothing will ever grant them)")
+            else:
+                msgs.append(f"op-raises: an operation of the resource raised {obs['raised']}")
+            return msgs          # what was recorded after an escaping exception is not judged
         R = {int(k): v for k, v in obs["reqs"].items()}
 
         def key(i):
@@ -433,6 +466,8 @@ class C06(Prop):
         tgrant = {}
         req_ids, nrq = sorted(R), 0
         evictions = []          # (time, victim id, evictor id)
+        ended = set()           # processes whose generator has ended
+        ended_at = {}           # pid -> time
         given_up = set()        # granted requests that were released / whose with-block was left: their slot must be free
         nexit = 0
 
@@ -518,7 +553,12 @@ class C06(Prop):
                     for v, e in zip(victims, evictors):
                         if not R[e][2] or not key(v) > key(e):
                             msgs.append(f"evicted-not-strictly-worse: {where}: victim {v} key {key(v)} evicted by {e} key {key(e)} preempt={R[e][2]}")
-                        evictions.append((now, v, e))
+                        evictions.append((now, v, e, R[v][0] in ended))
+            if a[0] == "En":
+                ended.add(a[1])
+                ended_at[a[1]] = now
+                if users != pusers or queue != pqueue or new:
+                    msgs.append(f"noop-changed-state: {where}: users {pusers}->{users} queue {pqueue}->{queue} newly granted {new}")
             if a[0] == "Rq":
                 e = req_ids[nrq] if nrq < len(req_ids) else None
                 nrq += 1
@@ -548,7 +588,8 @@ class C06(Prop):
                 msgs.append(f"idle-slot-at-advance: end of run t={now}: requests {queue} wait while a slot is free (users {users}, "
                             f"released / left with-block: {[u for u in users if u in given_up]})")
         # the victims really receive Interrupt(Preempted(by, usage_since, resource))
-        exp = sorted([R[v][0], t, 1, R[e][0], tgrant.get(v), 1] for (t, v, e) in evictions)
+        # (a victim whose process had already ended is evicted all the same, but there is nobody to notify)
+        exp = sorted([R[v][0], t, 1, R[e][0], tgrant.get(v), 1] for (t, v, e, dead) in evictions if not dead)
         got = sorted((x for x in obs["recv"] if x[2] == 1), key=lambda x: (x[0], x[1]))
         poked = sorted([x[0], x[1]] for x in obs["recv"] if x[2] != 1)
         if not obs["raised"] and obs["left"] == 0:
@@ -559,6 +600,8 @@ class C06(Prop):
                 else:
                     msgs.append(f"spurious-interrupt: process {x[0]} received an interrupt without Preempted cause at t={x[1]} that the driver did not issue")
             for x in exp:
+                if x not in got and ended_at.get(x[0]) == x[1]:
+                    continue     # the victim's generator ended in that very instant (an earlier interrupt finished it): the kernel drops the rest
                 if x not in got:
                     near = [g for g in got if g[0] == x[0] and g[1] == x[1]]
                     if near:
@@ -569,8 +612,8 @@ class C06(Prop):
                 if g not in exp:
                     msgs.append(f"spurious-interrupt: process {g[0]} received {g} at t={g[1]} without having been evicted")
             npre = len(obs["intrs"])
-            if npre != len(evictions):
-                msgs.append(f"interrupt-count: {npre} Interruption events with a Preempted cause for {len(evictions)} evictions")
+            if npre != len(exp) and not any(ended_at.get(x[0]) == x[1] for x in exp):
+                msgs.append(f"interrupt-count: {npre} Interruption events with a Preempted cause for {len(exp)} evictions of live processes")
         return msgs[:6]
 
     # ---- evidence helpers ----------------------------------------------------------------------------
@@ -588,6 +631,8 @@ class C06(Prop):
                 yield {**case, "procs": procs[:i] + [{**p, "script": sc[:j] + sc[j + 1:]}] + procs[i + 1:]}
             if p["start"] > 0:
                 yield {**case, "procs": procs[:i] + [{**p, "start": p["start"] - 1}] + procs[i + 1:]}
+            if p.get("leave"):
+                yield {**case, "procs": procs[:i] + [{**p, "leave": False}] + procs[i + 1:]}
         for i, p in enumerate(procs):
             sc = p["script"]
             for j, ins in enumerate(sc):
@@ -616,6 +661,12 @@ class C06(Prop):
             for g in s[5]:
                 if g not in via:
                     via[g] = a[0]
+            if a[0] == "En":
+                mine = [i for i, v in obs["reqs"].items() if v[0] == a[1]]
+                if any(int(i) in s[1] for i in mine):
+                    flags.add("process-ends-holding-a-slot")
+                if any(int(i) in s[2] for i in mine):
+                    flags.add("process-ends-while-queued")
             if a[0] == "Ex" and a[2] in prev[1] and [0, a[2]] in prev[4]:
                 # the with-block is left (by an Interrupt) while the grant is triggered but not yet processed
                 how = {"Rq": "at-request", "Pr": "by-release-rescan"}.get(via.get(a[2]), "otherwise")
